@@ -1046,8 +1046,12 @@ impl<'a> Read for ZipFile<'a> {
     }
 }
 
-impl<'a> Drop for ZipFile<'a> {
-    fn drop(&mut self) {
+impl<'a> ZipFile<'a> {
+    /// Reads what the consumer has left of a streamed entry's data, so that the stream stands at
+    /// the next header. The destructor does this for an entry that is simply dropped, but it
+    /// cannot report a failure of the underlying reader; this can.
+    pub(crate) fn skip_rest_of_streamed_entry(&mut self) -> io::Result<()> {
+        let mut result = Ok(());
         // self.data is Owned, this reader is constructed by a streaming reader.
         // In this case, we want to exhaust the reader so that the next file is accessible.
         if let Cow::Owned(_) = self.data {
@@ -1069,12 +1073,24 @@ impl<'a> Drop for ZipFile<'a> {
                 match reader.read(&mut buffer) {
                     Ok(0) => break,
                     Ok(_) => (),
-                    // A destructor cannot report the failure and must not panic; the
-                    // next read on the underlying stream will surface it.
-                    Err(_) => break,
+                    Err(e) => {
+                        result = Err(e);
+                        break;
+                    }
                 }
             }
+            // (The entry stays usable: what is left of it, if anything, is read undecoded.)
+            self.reader = ZipFileReader::Raw(reader);
         }
+        result
+    }
+}
+
+impl<'a> Drop for ZipFile<'a> {
+    fn drop(&mut self) {
+        // A destructor cannot report the failure and must not panic; the next read on the
+        // underlying stream will surface it.
+        let _ = self.skip_rest_of_streamed_entry();
     }
 }
 
